@@ -62,4 +62,14 @@ theorem height_foldl_call (es : List Expr) (acc : Expr) :
       simp only [height, heightL, heightK]; omega
     omega
 
+
+theorem heightL_append : ∀ (a b : List Expr), heightL (a ++ b) = max (heightL a) (heightL b)
+  | [], b => by simp [heightL]
+  | e :: a, b => by simp only [List.cons_append, heightL, heightL_append a b]; omega
+
+/-- the guards a block opens: one per statement that may interrupt and is followed by more statements -/
+def guardCount (fk : FlowKind) : List Stmt → Nat
+  | [] => 0
+  | s :: ss => if s.isDirect || ss.isEmpty then 0 else (if mayInt fk s then 1 else 0) + guardCount fk ss
+
 end OlVerif
